@@ -2,6 +2,7 @@ package symgo
 
 import (
 	"fmt"
+	"go/types"
 	"os"
 	"path/filepath"
 	"regexp"
@@ -140,5 +141,44 @@ func Load(repo, pkgRel string, harnessFiles []string, extraOverlay map[string]st
 	if ld.HPkg == nil {
 		return nil, fmt.Errorf("no SSA package for %s", pkgRel)
 	}
+	if err := checkStubs(prog, ld.HPkg, ld.Stubs); err != nil {
+		return nil, err
+	}
 	return ld, nil
+}
+
+var methStubRe = regexp.MustCompile(`^\((\*?)(.+)\.([A-Za-z_]\w*)\)\.([A-Za-z_]\w*)$`)
+
+// checkStubs makes sure every //verif:stub names an existing function (an unmatched stub would be
+// silently ignored, which weakens a harness without notice).
+func checkStubs(prog *ssa.Program, hpkg *ssa.Package, stubs map[string]string) error {
+	for name, target := range stubs {
+		if target != "noop" && hpkg.Func(target) == nil {
+			return fmt.Errorf("stub target %s (for %s) is not a function of the harness package", target, name)
+		}
+		found := false
+		if m := methStubRe.FindStringSubmatch(name); m != nil {
+			if pkg := prog.ImportedPackage(m[2]); pkg != nil {
+				if t := pkg.Type(m[3]); t != nil {
+					var T types.Type = t.Type()
+					if m[1] == "*" {
+						T = types.NewPointer(T)
+					}
+					if sel := prog.MethodSets.MethodSet(T).Lookup(pkg.Pkg, m[4]); sel != nil {
+						if fn := prog.MethodValue(sel); fn != nil && funcKey(fn) == name {
+							found = true
+						}
+					}
+				}
+			}
+		} else if i := strings.LastIndex(name, "."); i > 0 {
+			if pkg := prog.ImportedPackage(name[:i]); pkg != nil && pkg.Func(name[i+1:]) != nil {
+				found = true
+			}
+		}
+		if !found {
+			return fmt.Errorf("//verif:stub %s: no such function in the program (check receiver form: value receivers are (pkg.T).M, pointer receivers (*pkg.T).M)", name)
+		}
+	}
+	return nil
 }
